@@ -62,7 +62,17 @@ def main():
             break
     meta["steps"]["existing_tests_pass_with_change"] = (rc == 0) or not real
     meta["steps"]["existing_tests_failures_seen"] = fails
-    # (3) demo with / without the change, in the agent's worktree
+    # (3) demo with / without the change, in the agent's worktree - first moved to /repo's current HEAD so that
+    # the demo is judged on the same base as the checks (fix commits may have landed since the agent started)
+    head = subprocess.check_output(["git", "-C", "/repo", "rev-parse", "HEAD"]).decode().strip()
+    wt_head = subprocess.check_output(["git", "-C", wt, "rev-parse", "HEAD"]).decode().strip()
+    meta["steps"]["worktree_rebased_from"] = None
+    if head != wt_head:
+        sh("git stash", cwd=wt)
+        sh(["git", "checkout", "-q", "--detach", head], cwd=wt)
+        rc, out = sh("git stash pop", cwd=wt)
+        meta["steps"]["worktree_rebased_from"] = wt_head[:10]
+        meta["steps"]["worktree_rebase_clean"] = rc == 0
     demo = os.path.join(sd, "demo", "run.sh")
     if os.path.exists(demo):
         rc_with, out_with = sh(["bash", demo], cwd=os.path.join(sd, "demo"), timeout=1800)
